@@ -138,6 +138,11 @@ module N =
                   | N0 -> (N0, a)
                   | Npos _ -> pos_div_eucl na b)
 
+  (** val div : coq_N -> coq_N -> coq_N **)
+
+  let div a b =
+    fst (div_eucl a b)
+
   (** val modulo : coq_N -> coq_N -> coq_N **)
 
   let modulo a b =
@@ -178,6 +183,13 @@ module N =
     | Npos p -> (match m with
                  | N0 -> n
                  | Npos q -> Pos.coq_lxor p q)
+
+  (** val shiftl : coq_N -> coq_N -> coq_N **)
+
+  let shiftl a n =
+    match a with
+    | N0 -> N0
+    | Npos a0 -> Npos (Pos.shiftl a0 n)
 
   (** val to_nat : coq_N -> nat **)
 
